@@ -161,3 +161,19 @@ Proof.
       * inversion Hin; subst. rewrite (trace_app _ _ _ R2). apply in_or_app. left. now apply R3.
       * rewrite (trace_app _ _ _ R2). apply in_or_app. right. rewrite R1. now apply I3.
 Qed.
+
+(** final form (repaired trimming): no watermark hypothesis *)
+Lemma conn_packet_duplicate_always : forall ops sp q x p srv d,
+  let h := fst (run newHandler ops) in
+  accepted (trace newHandler ops) sp q -> hist_of h sp = Some x ->
+  sp_of (kLvl p) = Some sp -> kPn p = q ->
+  let g := mkG h srv d in
+  fst (conn_packet g p) = g /\
+  (snd (conn_packet g p) = GDropDup \/ snd (conn_packet g p) = GDrop0RTT).
+Proof.
+  intros ops sp q x p srv d h Hacc Hx Hsp Hpn. cbn zeta.
+  destruct (handler_duplicate_always ops sp q x Hacc Hx) as (Hd & _).
+  unfold conn_packet. cbn [gH gServer gInitDropped].
+  destruct (negb srv && (kLvl p =? rph_Enc0RTT)); [split; [reflexivity | now right] |].
+  rewrite (h_is_dup_hist h (kPn p) (kLvl p) sp x Hsp Hx), Hpn, Hd. split; [reflexivity | now left].
+Qed.
